@@ -388,7 +388,7 @@ func c13Supercard() *c13Importer {
 		Name: "ch.supercard", Account: acct, File: "s.csv", Latin1: true, Vars: []string{""}, Curs3: 2,
 		Args: func(string) []string { return []string{"--account", acct} },
 		Alpha: func(d c13Dims) []c13Row {
-			return c13Alpha(d, true, []c13KS{{Kind: "belastung", T: c13TAll}, {Kind: "gutschrift", T: c13TFew}, {Kind: "saldovortrag", NoAmt: true}})
+			return c13Alpha(d, true, []c13KS{{Kind: "belastung", T: c13TAll}, {Kind: "gutschrift", T: c13TFew}, {Kind: "belastung-fx", T: c13TFew}, {Kind: "saldovortrag", NoAmt: true}})
 		},
 		Render: func(v string, rows []c13Row) (string, [][]string, []string) {
 			var b strings.Builder
@@ -401,6 +401,15 @@ func c13Supercard() *c13Importer {
 				switch r.Kind {
 				case "belastung":
 					fmt.Fprintf(&b, "1425 0000 0000;1111 2222 3333 4444;OWNER;%s;%s;Tankstelle;%s;%s; ;%s;%s; ;%s\n", d, t, a, r.Cur, r.Cur, a, d)
+					wants = append(wants, []string{c13T(r.Date, c13Eff(r.Cur, "-"+a))})
+				case "belastung-fx":
+					// purchase in a foreign currency: Betrag/Originalwährung carry the original
+					// amount, Belastung is billed in Währung (the row's currency)
+					orig := "USD"
+					if r.Cur == "USD" {
+						orig = "GBP"
+					}
+					fmt.Fprintf(&b, "1425 0000 0000;1111 2222 3333 4444;OWNER;%s;%s;Hotel;77.70;%s;0.9;%s;%s; ;%s\n", d, t, orig, r.Cur, a, d)
 					wants = append(wants, []string{c13T(r.Date, c13Eff(r.Cur, "-"+a))})
 				case "gutschrift":
 					fmt.Fprintf(&b, "1425 0000 0000;1111 2222 3333 4444;OWNER;%s;%s;Warenhaus;%s;%s; ;%s; ;%s;%s\n", d, t, a, r.Cur, r.Cur, a, d)
@@ -549,7 +558,7 @@ func c13Revolut2() *c13Importer {
 		Name: "revolut2", Account: acct, File: "s.csv", Mono: +1, Vars: []string{""}, Curs3: 2,
 		Args: func(string) []string { return []string{"--account", acct, "--fee", "Expenses:Fees"} },
 		Alpha: func(d c13Dims) []c13Row {
-			return c13Alpha(d, true, []c13KS{{Kind: "payment", T: c13TAll}, {Kind: "payment-fee", T: c13TFew}, {Kind: "topup", T: c13TFew}, {Kind: "pending", NoAmt: true}})
+			return c13Alpha(d, true, []c13KS{{Kind: "payment", T: c13TAll}, {Kind: "payment-fee", T: c13TFew}, {Kind: "topup", T: c13TFew}, {Kind: "verification", NoAmt: true}, {Kind: "pending", NoAmt: true}})
 		},
 		Render: func(v string, rows []c13Row) (string, [][]string, []string) {
 			var b strings.Builder
@@ -575,6 +584,10 @@ func c13Revolut2() *c13Importer {
 				case "topup":
 					typ, amt = "TOPUP", a
 					eff = c13Eff(r.Cur, a)
+				case "verification":
+					// completed row with amount 0.00 and fee 0.00 (card verification)
+					amt = "0.00"
+					eff = c13Eff(r.Cur, "0")
 				case "pending":
 					// no completed date: the row is not booked yet
 					fmt.Fprintf(&b, "CARD_PAYMENT,Current,%s 16:35:02,,pending,-%s,0.00,%s,PENDING,\n", r.Date, a, r.Cur)
